@@ -80,6 +80,9 @@ def safeArmOk (r : SafeRow) (op : Kernel) (arm : SafeArmFn) : Bool :=
       && s.passesDims == arm.constDims)
   -- the mandatory fallback slot is present
   && arm.slots.any (fun s => s.label == .fallback)
+  -- every routine the invocation supplies for this form is offered to the dispatcher (a template that forgets an
+  -- optional arm in one form silently runs a lower-priority backend there)
+  && (r.bindings.filter (fun b => b.2.1 == arm.form)).all (fun b => arm.slots.any (fun s => s.label == b.1))
 
 def safeRowOk (arms : List SafeArmFn) (r : SafeRow) : Bool :=
   match kernelOfSafeRow r with
